@@ -44,6 +44,20 @@ PROPS = {
              count_all=True),
     "C11": P(CTORS, "all named constructors, n = 0..14, all i < n, k in 0..n+2 and 63, 64, 65, 2^32, usize::MAX, "
              "all count masks for n <= 5 and structured/random 64-bit masks above"),
+    "C12": P(["t_mk", "t_val", "t_bin", "t_rel", "t_implut", "t_info", "t_all"],
+             "all cubes and pairs over n <= 3 (5 thorough) with every assignment, implies_lut against all functions, "
+             "constructors up to 32 variables, random 32-variable cubes with random 32-bit assignments"),
+    "C13": P(["t_mk", "t_val", "t_bin", "t_not", "t_rel", "t_implut", "t_info", "t_all", "t_tolut"],
+             "all exclusive cubes and pairs over n <= 4 (5 thorough), random 32-variable ones; all Soes of <= 2 (3) terms over n <= 3, random to n = 8"),
+    "C14": P(["t_mk", "t_val", "t_bin", "t_not", "t_info", "t_tolut"],
+             "all cube lists of <= 2 (3) cubes over n <= 3, Lut->Sop->Lut for every function of n <= 3 (4), nested expressions "
+             "(depth <= 4) over random redundant/overlapping/duplicated cube lists up to n = 10", chunk_weight=6000),
+    "C15": P(["t_mk", "t_val", "t_bin", "t_not", "t_info", "t_tolut"],
+             "Lut->Esop for every function of n <= 3 (4 thorough) and structured/random functions to n = 10; operators on random cube lists",
+             chunk_weight=6000),
+    "C16": P(["t_text", "t_alltext"],
+             "printed text of all cubes / exclusive cubes over n <= 4, all forms of <= 2 (3) terms over n <= 3, random forms with "
+             "two-digit variable indices; parsed and evaluated by the specification on every assignment"),
     "C17": P([], "out-of-range indices/assignments, size-mismatched operands, wrong slice lengths on every index-taking "
              "method, executed by a debug-assertions+overflow-checks build and by a build without either; valid workload "
              "compared event by event between the two builds",
